@@ -470,3 +470,305 @@ Proof.
   rewrite <- Hexp. eapply reader_read_all_spec; eauto.
   rewrite Hexp, all_rev_length. lia.
 Qed.
+
+(** ** Timestamp seek: completeness *)
+
+(** Start offset of line [k]. *)
+Definition St (f : qfile) (k : nat) : Z := fsize (firstn k f).
+
+Definition sorted_ts (f : qfile) : Prop :=
+  forall i j li ti lj tj, nth_error f i = Some (li, ti) -> nth_error f j = Some (lj, tj) ->
+    (i < j)%nat -> ti < tj.
+
+Definition stamps_nonzero (f : qfile) : Prop := Forall (fun x : Z * Z => snd x <> 0) f.
+
+Lemma St_0 f : St f 0 = 0.
+Proof. reflexivity. Qed.
+
+Lemma St_all f : St f (length f) = fsize f.
+Proof. unfold St. rewrite firstn_all. reflexivity. Qed.
+
+Lemma St_succ f k l t : nth_error f k = Some (l, t) -> St f (S k) = St f k + l + 1.
+Proof.
+  intro H. unfold St. rewrite (firstn_S_snoc f k (0, 0)) by (eapply nth_error_Some_length; eauto).
+  rewrite fsize_app. rewrite (nth_error_nth _ _ _ H). cbn [fsize]. lia.
+Qed.
+
+Lemma St_mono me f : lines_ok me f -> forall a b, (a <= b)%nat -> St f a <= St f b.
+Proof.
+  intros Hf a b Hab. induction Hab; [lia|].
+  destruct (nth_error f m) as [[l t]|] eqn:E.
+  - rewrite (St_succ _ _ _ _ E). unfold lines_ok in Hf. rewrite Forall_forall in Hf.
+    apply nth_error_In in E. apply Hf in E. cbn in E. lia.
+  - unfold St in *. apply nth_error_None in E.
+    rewrite (firstn_all2 (n := S m)) by lia. rewrite (firstn_all2 (n := m)) in IHHab by lia. lia.
+Qed.
+
+Lemma nth_line_ok me f k l t : lines_ok me f -> nth_error f k = Some (l, t) -> 0 < l < me.
+Proof.
+  intros Hf E. unfold lines_ok in Hf. rewrite Forall_forall in Hf.
+  apply nth_error_In in E. apply Hf in E. exact E.
+Qed.
+
+(** The line containing a byte between two line starts. *)
+Lemma locate me f : lines_ok me f -> forall b a p, (a <= b <= length f)%nat ->
+  St f a <= p < St f b ->
+  exists k l t, (a <= k < b)%nat /\ nth_error f k = Some (l, t) /\ St f k <= p <= St f k + l.
+Proof.
+  intros Hf. induction b as [|b IH]; intros a p Hab Hp.
+  - assert (a = 0)%nat by lia. subst. rewrite St_0 in Hp. lia.
+  - destruct (nth_error f b) as [[l t]|] eqn:E; [|apply nth_error_None in E; lia].
+    rewrite (St_succ _ _ _ _ E) in Hp.
+    destruct (Z_lt_le_dec p (St f b)).
+    + assert (a <= b)%nat.
+      { destruct (Nat.eq_dec a (S b)); [|lia]. subst a. rewrite (St_succ _ _ _ _ E) in Hp. lia. }
+      destruct (IH a p ltac:(lia) ltac:(lia)) as (k & l' & t' & ? & ? & ?).
+      exists k, l', t'. repeat split; auto; lia.
+    + assert (a <= b)%nat.
+      { destruct (Nat.eq_dec a (S b)); [|lia]. subst a. rewrite (St_succ _ _ _ _ E) in Hp. lia. }
+      exists b, l, t. repeat split; auto; lia.
+Qed.
+
+(** A probe inside a line shorter than [me] sees the whole line. *)
+Lemma probe_line_in me f k l t p :
+  0 < me -> lines_ok me f -> nth_error f k = Some (l, t) ->
+  St f k <= p <= St f k + l ->
+  probe_line me f p = Some (St f k, St f k + l + 1, l, t).
+Proof.
+  intros Hme Hf E Hp.
+  pose proof (nth_line_ok _ _ _ _ _ Hf E) as Hl.
+  pose proof (firstn_skipn_nth _ _ _ E) as Hsplit.
+  pose proof (lines_ok_firstn me f k Hf) as Hpre.
+  pose proof (fsize_nonneg _ _ Hpre) as Hnn. fold (St f k) in Hnn.
+  assert (Hsize : St f k + l + 1 <= fsize f).
+  { rewrite Hsplit at 2. rewrite fsize_app. cbn [fsize]. fold (St f k).
+    assert (0 <= fsize (skipn (S k) f)).
+    { apply (fsize_nonneg me). rewrite <- (firstn_skipn (S k) f) in Hf. apply lines_ok_app in Hf. tauto. }
+    lia. }
+  unfold probe_line. rewrite Hsplit at 2.
+  rewrite (line_at_prefix me) by (auto; fold (St f k); lia). fold (St f k).
+  set (sp := if p >? me then p - me else 0).
+  assert (Hsp : 0 <= sp <= St f k /\ sp <= p /\ p <= sp + me).
+  { subst sp. destruct (Z.gtb_spec p me); lia. }
+  destruct (Z.leb_spec (Z.min (fsize f - sp) (2 * me)) 0); [lia|].
+  rewrite Z.add_0_l. rewrite Z.max_r by lia.
+  destruct (Z.ltb_spec (St f k + l) (sp + Z.min (fsize f - sp) (2 * me))); [|lia].
+  rewrite Z.eqb_refl. repeat f_equal; lia.
+Qed.
+
+(** Beyond the last byte of a non-empty file the probe reports [size]. *)
+Lemma probe_line_end me f : 0 < me -> lines_ok me f -> f <> [] ->
+  exists le len, probe_line me f (fsize f) = Some (fsize f, le, len, 0).
+Proof.
+  intros Hme Hf Hne. unfold probe_line.
+  assert (0 < fsize f).
+  { destruct f as [|[l t] f]; [congruence|]. inversion Hf; subst. cbn [fsize fst] in *.
+    pose proof (fsize_nonneg _ _ H2). lia. }
+  set (sp := if fsize f >? me then fsize f - me else 0).
+  assert (0 <= sp < fsize f) by (subst sp; destruct (Z.gtb_spec (fsize f) me); lia).
+  destruct (Z.leb_spec (Z.min (fsize f - sp) (2 * me)) 0); [lia|].
+  rewrite (line_at_beyond me) by (auto; lia). rewrite Z.max_r by lia. eauto.
+Qed.
+
+Lemma pow2_succ n : 2 ^ Z.of_nat (S n) = 2 * 2 ^ Z.of_nat n.
+Proof. rewrite Nat2Z.inj_succ, Z.pow_succ_r by lia. reflexivity. Qed.
+
+Lemma pow2_pos n : 0 < 2 ^ Z.of_nat n.
+Proof. apply Z.pow_pos_nonneg; lia. Qed.
+
+Lemma nth_stamp_nonzero f k l t : stamps_nonzero f -> nth_error f k = Some (l, t) -> t <> 0.
+Proof.
+  intros H E. unfold stamps_nonzero in H. rewrite Forall_forall in H.
+  apply nth_error_In in E. apply H in E. exact E.
+Qed.
+
+Section Seek.
+  Variables (me : Z) (f : qfile).
+  Hypothesis Hme : 0 < me.
+  Hypothesis Hf : lines_ok me f.
+  Hypothesis Hnz : stamps_nonzero f.
+
+  Let St_nonneg k : 0 <= St f k.
+  Proof. apply (fsize_nonneg me). apply lines_ok_firstn; auto. Qed.
+
+  Let St_le_size k : St f k <= fsize f.
+  Proof.
+    destruct (le_lt_dec k (length f)).
+    - rewrite <- St_all. eapply St_mono; eauto.
+    - unfold St. rewrite firstn_all2 by lia. lia.
+  Qed.
+
+  (** *** present stamp *)
+  Lemma seek_loop_present t l ts : sorted_ts f -> nth_error f t = Some (l, ts) ->
+    forall fuel a b last depth, (a <= t < b)%nat -> (b <= length f)%nat ->
+    (last < St f a \/ St f b <= last) -> St f b - St f a < 2 ^ Z.of_nat fuel ->
+    exists d, seek_loop fuel me f ts (St f a) (St f b) (St f a + (St f b - St f a) ÷ 2) last depth
+              = Found (St f t + l) d.
+  Proof.
+    intros Hs Et. pose proof (nth_line_ok _ _ _ _ _ Hf Et) as Hl.
+    induction fuel as [|fuel IH]; intros a b last depth Hab Hb Hlast Hw.
+    - exfalso. cbn in Hw.
+      pose proof (St_mono me f Hf a t ltac:(lia)). pose proof (St_mono me f Hf (S t) b ltac:(lia)).
+      rewrite (St_succ _ _ _ _ Et) in *. lia.
+    - assert (Hwide : St f a + 2 <= St f b).
+      { pose proof (St_mono me f Hf a t ltac:(lia)). pose proof (St_mono me f Hf (S t) b ltac:(lia)).
+        rewrite (St_succ _ _ _ _ Et) in *. lia. }
+      set (w := St f b - St f a) in *.
+      assert (Hq : 2 * (w ÷ 2) <= w <= 2 * (w ÷ 2) + 1) by (rewrite Z.quot_div_nonneg by lia; lia).
+      set (p := St f a + w ÷ 2).
+      destruct (locate me f Hf b a p ltac:(lia) ltac:(subst p; lia)) as (k & lk & tk & Hk & Ek & Hpk).
+      cbn [seek_loop]. rewrite (probe_line_in me f k lk tk p Hme Hf Ek Hpk).
+      pose proof (St_mono me f Hf a k ltac:(lia)) as Hak.
+      pose proof (nth_line_ok _ _ _ _ _ Hf Ek) as Hlk.
+      destruct (Z.eqb_spec (St f k) last); [lia|].
+      pose proof (St_le_size b).
+      destruct (Z.eqb_spec (St f k) (fsize f)); [lia|].
+      destruct (Z.eqb_spec tk 0); [exfalso; eapply nth_stamp_nonzero; eauto|].
+      rewrite pow2_succ in Hw.
+      destruct (lt_eq_lt_dec k t) as [[Hlt|Heq]|Hgt].
+      + (* probed line older than the target: continue to the right of it *)
+        pose proof (Hs _ _ _ _ _ _ Ek Et Hlt).
+        destruct (Z.eqb_spec tk ts); [lia|]. destruct (Z.gtb_spec tk ts); [lia|].
+        pose proof (St_succ _ _ _ _ Ek) as Hsk. rewrite <- Hsk.
+        apply IH; subst p w; lia.
+      + subst k. rewrite Et in Ek. injection Ek as <- <-.
+        rewrite Z.eqb_refl. eauto.
+      + pose proof (Hs _ _ _ _ _ _ Et Ek Hgt).
+        destruct (Z.eqb_spec tk ts); [lia|]. destruct (Z.gtb_spec tk ts); [|lia].
+        apply IH; subst p w; lia.
+  Qed.
+
+  (** *** stamp newer than every line: too late *)
+  Lemma too_late_final ts fuel a last depth : f <> [] -> last < fsize f -> St f a = fsize f ->
+    seek_loop (S fuel) me f ts (St f a) (fsize f) (St f a + (fsize f - St f a) ÷ 2) last depth = TooLate.
+  Proof.
+    intros Hne Hlast ->. rewrite Z.sub_diag. change (0 ÷ 2) with 0. rewrite Z.add_0_r.
+    destruct (probe_line_end me f Hme Hf Hne) as (le & len & Hp).
+    cbn [seek_loop]. rewrite Hp.
+    destruct (Z.eqb_spec (fsize f) last); [lia|]. rewrite Z.eqb_refl. reflexivity.
+  Qed.
+
+  Lemma seek_loop_too_late ts : f <> [] ->
+    (forall k l t, nth_error f k = Some (l, t) -> t < ts) ->
+    forall fuel a last depth, (a <= length f)%nat -> last < St f a ->
+    fsize f - St f a < 2 ^ Z.of_nat fuel ->
+    seek_loop (S fuel) me f ts (St f a) (fsize f) (St f a + (fsize f - St f a) ÷ 2) last depth = TooLate.
+  Proof.
+    intros Hne Hall.
+    induction fuel as [|fuel IH]; intros a last depth Ha Hlast Hw;
+      pose proof (St_le_size a) as Hsz; pose proof (St_nonneg a) as Hnn;
+      (assert (Hq : 2 * ((fsize f - St f a) ÷ 2) <= fsize f - St f a <= 2 * ((fsize f - St f a) ÷ 2) + 1)
+         by (rewrite Z.quot_div_nonneg by lia; lia));
+      (destruct (Z.eq_dec (fsize f - St f a) 0) as [Hw0|Hw0]; [apply too_late_final; auto; lia|]).
+    - cbn in Hw. lia.
+    - rewrite pow2_succ in Hw.
+      set (p := St f a + (fsize f - St f a) ÷ 2) in *.
+      destruct (locate me f Hf (length f) a p ltac:(lia) ltac:(rewrite St_all; subst p; lia))
+        as (k & lk & tk & Hk & Ek & Hpk).
+      cbn [seek_loop]. rewrite (probe_line_in me f k lk tk p Hme Hf Ek Hpk).
+      pose proof (St_mono me f Hf a k ltac:(lia)) as Hak.
+      pose proof (nth_line_ok _ _ _ _ _ Hf Ek) as Hlk.
+      destruct (Z.eqb_spec (St f k) last); [lia|].
+      pose proof (St_le_size (S k)) as Hsk'.
+      pose proof (St_succ _ _ _ _ Ek) as Hsk. rewrite Hsk in Hsk'.
+      destruct (Z.eqb_spec (St f k) (fsize f)); [lia|].
+      destruct (Z.eqb_spec tk 0); [exfalso; eapply nth_stamp_nonzero; eauto|].
+      pose proof (Hall _ _ _ Ek).
+      destruct (Z.eqb_spec tk ts); [lia|]. destruct (Z.gtb_spec tk ts); [lia|].
+      rewrite <- Hsk.
+      apply IH; subst p; lia.
+  Qed.
+
+  (** *** stamp older than every line: too early *)
+  Lemma seek_loop_too_early ts : f <> [] ->
+    (forall k l t, nth_error f k = Some (l, t) -> ts < t) ->
+    forall fuel b last depth, (b <= length f)%nat ->
+    (last = St f b \/ (last = -1 /\ b = length f)) ->
+    St f b < 2 ^ Z.of_nat fuel ->
+    seek_loop (S fuel) me f ts 0 (St f b) (0 + (St f b - 0) ÷ 2) last depth = TooEarly.
+  Proof.
+    intros Hne Hall.
+    assert (Hsize : 0 < fsize f).
+    { destruct f as [|[l t] f']; [congruence|]. inversion Hf; subst. cbn [fsize fst] in *.
+      pose proof (fsize_nonneg _ _ H2). lia. }
+    assert (H0 : exists l0 t0, nth_error f 0 = Some (l0, t0)).
+    { destruct f as [|[l t] f']; [congruence|]. cbn. eauto. }
+    destruct H0 as (l0 & t0 & E0). pose proof (nth_line_ok _ _ _ _ _ Hf E0) as Hl0.
+    induction fuel as [|fuel IH]; intros b last depth Hb Hlast Hw;
+      pose proof (St_nonneg b) as Hnn; rewrite Z.add_0_l, Z.sub_0_r;
+      (assert (Hq : 2 * (St f b ÷ 2) <= St f b <= 2 * (St f b ÷ 2) + 1) by (rewrite Z.quot_div_nonneg by lia; lia));
+      (destruct (Z.eq_dec (St f b) 0) as [Hb0|Hb0];
+       [ rewrite Hb0 in *; change (0 ÷ 2) with 0;
+         cbn [seek_loop];
+         rewrite (probe_line_in me f 0 l0 t0 0 Hme Hf E0) by (rewrite St_0; lia);
+         rewrite St_0;
+         assert (last = 0) as -> by (destruct Hlast as [?|[? ->]]; [lia|rewrite St_all in Hb0; lia]);
+         reflexivity | ]).
+    - cbn in Hw. lia.
+    - rewrite pow2_succ in Hw.
+      set (p := St f b ÷ 2) in *.
+      destruct (locate me f Hf b 0%nat p ltac:(lia) ltac:(rewrite St_0; subst p; lia)) as (k & lk & tk & Hk & Ek & Hpk).
+      cbn [seek_loop]. rewrite (probe_line_in me f k lk tk p Hme Hf Ek Hpk).
+      pose proof (St_nonneg k). pose proof (St_le_size b).
+      destruct (Z.eqb_spec (St f k) last); [destruct Hlast as [?|[? ?]]; lia|].
+      destruct (Z.eqb_spec (St f k) (fsize f)); [lia|].
+      destruct (Z.eqb_spec tk 0); [exfalso; eapply nth_stamp_nonzero; eauto|].
+      pose proof (Hall _ _ _ Ek).
+      destruct (Z.eqb_spec tk ts); [lia|]. destruct (Z.gtb_spec tk ts); [|lia].
+      apply IH; try lia.
+  Qed.
+End Seek.
+
+(** *** C20_seek_present / C20_seek_absent at the level of qLogFile.seekTS *)
+Definition size_ok (f : qfile) : Prop := fsize f < 2 ^ 63.
+
+Lemma pow63_le_99 : 2 ^ 63 <= 2 ^ Z.of_nat 99.
+Proof. vm_compute. discriminate. Qed.
+
+Theorem seek_present me f t l ts :
+  0 < me -> lines_ok me f -> stamps_nonzero f -> sorted_ts f -> size_ok f ->
+  nth_error f t = Some (l, ts) ->
+  exists d, seek_ts me f ts = Found (St f t + l) d.
+Proof.
+  intros Hme Hf Hnz Hs Hsz Et. unfold seek_ts, seek_ts_fuel.
+  pose proof (seek_loop_present me f Hme Hf Hnz t l ts Hs Et max_depth 0 (length f) (-1) 0) as H.
+  rewrite St_0, St_all, Z.add_0_l, Z.sub_0_r in H. apply H.
+  - split; [lia|]. eapply nth_error_Some_length; eauto.
+  - lia.
+  - left; lia.
+  - unfold size_ok in Hsz. pose proof pow63_le_99. change max_depth with (S 99). rewrite pow2_succ.
+    pose proof (pow2_pos 99). lia.
+Qed.
+
+Theorem seek_too_late me f ts :
+  0 < me -> lines_ok me f -> stamps_nonzero f -> size_ok f -> f <> [] ->
+  (forall k l t, nth_error f k = Some (l, t) -> t < ts) ->
+  seek_ts me f ts = TooLate.
+Proof.
+  intros Hme Hf Hnz Hsz Hne Hall. unfold seek_ts, seek_ts_fuel. change max_depth with (S 99).
+  pose proof (seek_loop_too_late me f Hme Hf Hnz ts Hne Hall 99 0 (-1) 0) as H.
+  rewrite St_0, Z.add_0_l, Z.sub_0_r in H. apply H; try lia.
+  unfold size_ok in Hsz. pose proof pow63_le_99. lia.
+Qed.
+
+Theorem seek_too_early me f ts :
+  0 < me -> lines_ok me f -> stamps_nonzero f -> size_ok f -> f <> [] ->
+  (forall k l t, nth_error f k = Some (l, t) -> ts < t) ->
+  seek_ts me f ts = TooEarly.
+Proof.
+  intros Hme Hf Hnz Hsz Hne Hall. unfold seek_ts, seek_ts_fuel. change max_depth with (S 99).
+  pose proof (seek_loop_too_early me f Hme Hf Hnz ts Hne Hall 99 (length f) (-1) 0) as H.
+  rewrite St_all, Z.add_0_l, Z.sub_0_r in H. apply H; try lia.
+  unfold size_ok in Hsz. pose proof pow63_le_99. lia.
+Qed.
+
+(** Premises satisfiable: three lines, me = 8. *)
+Example seek_example :
+  let f := [(5, 11); (7, 12); (3, 13)] in
+  lines_ok 8 f /\ stamps_nonzero f /\ size_ok f /\
+  seek_ts 8 f 12 = Found 13 0 /\ seek_ts 8 f 11 = Found 5 1 /\
+  seek_ts 8 f 99 = TooLate /\ seek_ts 8 f 1 = TooEarly.
+Proof.
+  cbv zeta. split; [repeat constructor; cbn; lia|]. split; [repeat constructor; cbn; lia|].
+  split; [unfold size_ok; cbn; lia|]. vm_compute. repeat split.
+Qed.
